@@ -36,7 +36,7 @@ BASE_NOTE = ("Decided relative to the repository's own simulated kernel (Virtual
              "feature verif-hooks; seeded sampling, not enumeration, unless stated; probe built-ins and the outer scheduler are harness code.")
 
 check("C13", "exploration",
-      "Race-free generated shell programs with up to ~6 concurrently live processes run whole on the simulated OS under a seeded scheduler (FIFO baseline, random, PCT, round-robin, FIFO-with-deviations) with preemption at kernel-call boundaries and short I/O; oracles: termination (deadlock = no runnable task and no timer), stdout/$?/final status equal to a reference interpreter of the generator AST and identical across schedules, wait results equal exit statuses and never precede exit, every awaited child reaped exactly once, no zombie. Separate fault configurations with a narrowly relaxed oracle (termination, true wait statuses, nothing runs after its death): the k-th fork fails with EAGAIN; children are killed with SIGKILL from outside at seeded instants (crash injection). A kernel-level engine drives the simulated process table (fork, exit, kill incl. STOP/CONT/KILL, signal masks, dispositions, wait) through seeded histories against a POSIX life-cycle model (each state change reported once and truthfully, ECHILD only when nothing is left, zombies and reaped processes immune, stopped processes hold signals until SIGCONT). A fifth of the programs trap SIGUSR1 in the main shell and have foreground children send it. Sampling many interleavings is the right level because the property is quantified over schedules the test suite's single FIFO executor never produces.",
+      "Race-free generated shell programs with up to ~6 concurrently live processes run whole on the simulated OS under a seeded scheduler (FIFO baseline, random, PCT, round-robin, FIFO-with-deviations) with preemption at kernel-call boundaries and short I/O; oracles: termination (deadlock = no runnable task and no timer), stdout/$?/final status equal to a reference interpreter of the generator AST and identical across schedules, wait results equal exit statuses and never precede exit, every awaited child reaped exactly once, no zombie. Separate fault configurations with a narrowly relaxed oracle (termination, true wait statuses, nothing runs after its death): the k-th fork fails with EAGAIN; children are killed with SIGKILL from outside at seeded instants (crash injection). A kernel-level engine drives the simulated process table (fork, exit, setpgid, kill to a process or a process group incl. STOP/CONT/KILL, signal masks, dispositions, wait) through seeded histories against a POSIX life-cycle model (each state change reported once and truthfully, ECHILD only when nothing is left, zombies and reaped processes immune, stopped processes hold signals until SIGCONT). A fifth of the programs trap SIGUSR1 in the main shell and have foreground children send it. Sampling many interleavings is the right level because the property is quantified over schedules the test suite's single FIFO executor never produces.",
       BASE_NOTE, "deterministic simulation: seeded scheduler on the Executor seam + preemption hooks, reference-interpreter oracle", "DESIGN.md section 4 C13")
 
 check("C14", "exploration",
